@@ -2,7 +2,7 @@
 (* Bounded instance for C10.  Every initial state is one selection case: a library of 1..MaxLib fixed-gain models  *)
 (* drawn from a catalogue spanning two gain ranges, p_max below / above the required power, two noise figures,       *)
 (* plain / Raman / narrow-band / exactly-design-band models and the list memberships (own variety list, ROADM restriction, allowed for     *)
-(* design); a context = position (booster / inline / preamp), fibre below / above / partly above the Raman limit, own list and      *)
+(* design); a context = position (booster / inline / preamp / between two ROADMs), fibre below / above / partly above the Raman limit, own list and      *)
 (* ROADM list present or not, and a required gain half a dB off every capability boundary of the library.           *)
 (* For fixed-gain models the noise figure at the required gain is nf0 + max(0, gmin - g) (input padding): exact.     *)
 (*                                                                                                                  *)
@@ -47,30 +47,39 @@ GSet(l) == {cdB(1950)} \cup
                    a.flat + Ext - cdB(50), a.flat + Ext + cdB(50)}
                     \cup (IF a.raman THEN {a.gmin - cdB(50), a.gmin + cdB(50)} ELSE {}) : a \in l}
 
-BOOSTER == 0
-INLINE  == 1
-PREAMP  == 2
+BOOSTER == 0          \* ROADM -> amplifier -> fibre
+INLINE  == 1          \* fibre -> amplifier -> fibre
+PREAMP  == 2          \* fibre -> amplifier -> ROADM
+BETWEEN == 3          \* ROADM -> amplifier -> ROADM (two ROADMs chained, no fibre)
+\* where the ROADM restriction is declared (on both ROADMs of the line): 0 = booster and preamp lists, 1 = booster lists
+\* only (preamp lists empty), 2 = preamp lists only (booster lists empty).  The booster list of the ROADM right before
+\* the amplifier applies, else the preamp list of the ROADM right after it; an empty list is no restriction.
+RdmApplies(pos, side) == CASE pos = BOOSTER -> side \in {0, 1}
+                           [] pos = PREAMP  -> side \in {0, 2}
+                           [] pos = BETWEEN -> TRUE
+                           [] pos = INLINE  -> FALSE
 \* fibre in front of the amplifier: 0 = loss coefficient 0.2 dB/km, 1 = 0.3 dB/km, 2 = frequency dependent, 0.24 dB/km on
 \* most of the band and 0.30 dB/km at its lower end (the Raman limit is 0.25 dB/km: not below it on the whole band).
 \* lossCoef is the largest coefficient over the band, lossCoefRef the one at the reference frequency (sets the length).
 FIBRE_OK == 0
 FIBRE_LOSSY == 1
 FIBRE_MIXED == 2
-Ctx(l, g, pos, fibre, useOwn, useRdm) ==
-    [g |-> g, p |-> PReq, ext |-> Ext, pos |-> pos, useOwn |-> useOwn, useRdm |-> useRdm, fibre |-> fibre,
+Ctx(l, g, pos, fibre, useOwn, useRdm, side) ==
+    [g |-> g, p |-> PReq, ext |-> Ext, pos |-> pos, useOwn |-> useOwn, useRdm |-> useRdm, rdmSide |-> side, fibre |-> fibre,
      hasOwn |-> useOwn /\ \E a \in l : a.own,
-     hasRdm |-> useRdm /\ pos # INLINE /\ \E a \in l : a.rdm,
+     hasRdm |-> useRdm /\ RdmApplies(pos, side) /\ \E a \in l : a.rdm,
      bfmin |-> BandMin, bfmax |-> BandMax,
-     prevFiber |-> pos # BOOSTER, lossCoef |-> IF fibre = FIBRE_OK THEN 200000 ELSE 300000,
+     prevFiber |-> pos \in {INLINE, PREAMP}, lossCoef |-> IF fibre = FIBRE_OK THEN 200000 ELSE 300000,
      lossCoefRef |-> IF fibre = FIBRE_OK THEN 200000 ELSE IF fibre = FIBRE_LOSSY THEN 300000 ELSE 240000,
      ramanLimit |-> 250000]
 
 AtGain(l, g) == {[a EXCEPT !.nf = a.nf0 + MaxI(0, a.gmin - g)] : a \in l}
 
-Positions == {<<BOOSTER, 0>>, <<INLINE, 0>>, <<INLINE, 1>>, <<INLINE, 2>>, <<PREAMP, 0>>, <<PREAMP, 1>>, <<PREAMP, 2>>}
+Positions == {<<BETWEEN, 0>>, <<BOOSTER, 0>>, <<INLINE, 0>>, <<INLINE, 1>>, <<INLINE, 2>>, <<PREAMP, 0>>, <<PREAMP, 1>>, <<PREAMP, 2>>}
 \* initial states are enumerated by nested quantification (a set of all cases would be normalised at great cost)
 MCInit == /\ \E l \in Libs : \E g \in GSet(l) : \E pf \in Positions : \E uo \in BOOLEAN : \E ur \in BOOLEAN :
-                case = [lib |-> AtGain(l, g), c |-> Ctx(l, g, pf[1], pf[2], uo, ur)]
+             \E side \in (IF ur THEN {0, 1, 2} ELSE {0}) :
+                case = [lib |-> AtGain(l, g), c |-> Ctx(l, g, pf[1], pf[2], uo, ur, side)]
           /\ stage = "start"
           /\ permitted = {}
           /\ outcome = [kind |-> "none", x |-> NoModel]
@@ -104,7 +113,7 @@ OpenCase(lib, c) == \E a \in Permitted(lib, c) : OnlyBelowMinGain(a, c, 0) /\
                         \A b \in Admissible(lib, c) : a.nf < b.nf
 
 Spread == (case.c.g \div 500000) + case.c.pos * 3 + (IF case.c.useOwn THEN 5 ELSE 0) + (IF case.c.useRdm THEN 11 ELSE 0)
-            + case.c.fibre + SumFun([a \in case.lib |-> a.id % 9973], case.lib)
+            + case.c.fibre + 13 * case.c.rdmSide + SumFun([a \in case.lib |-> a.id % 9973], case.lib)
 \* cases in which no permitted model is capable (membership only) are sampled four times more sparsely
 Stride == IF CapableSet(case.lib, case.c, 0) = {} THEN 4 * EmitStride ELSE EmitStride
 Emit == stage # "start" \/ Spread % Stride # 0
